@@ -45,6 +45,12 @@ Theorem C06_eq_iff : forall a b : tsig, sig_eq a b = true <-> erase a = erase b.
 Proof. exact sig_eq_iff. Qed.
 Print Assumptions C06_eq_iff.
 
+(* ---- Ord (after fix 668536e1: different kinds are ordered by kind_rank instead of being called Equal):
+        cmp answers Equal exactly for signatures that are equal up to representation, i.e. exactly when == holds *)
+Theorem C06_cmp_eq : forall a b : tsig, sig_cmp a b = Eq <-> erase a = erase b.
+Proof. exact sig_cmp_eq_iff. Qed.
+Print Assumptions C06_cmp_eq.
+
 (* ---- the parser is total: Ok or InvalidSignature, never out of fuel (model artefact), never a panic
         (winnow's "repeat parsers must always consume" assertion cannot fire) *)
 Theorem C06_parse_total : forall (co gv : bool) (s : bytes),
